@@ -88,6 +88,41 @@ def eval_limits(args):
     return None if got == want else dict(lazy=lazy, max_depth=md, max_elements=me, depth=real_depth, elements=n, got=got, want=want)
 
 
+ETYPES = {'integer': '1', 'int': '1', 'decimal': '1.5', 'double': '1.0E0', 'float': '1', 'gYear': '2000', 'gYearMonth': '2000-01', 'date': '2000-01-01', 'dateTime': '2000-01-01T00:00:00',
+          'duration': 'P1D', 'yearMonthDuration': 'P1Y', 'time': '00:00:00', 'boolean': 'true', 'hexBinary': '0A', 'anyURI': 'a', 'QName': 'xs:a', 'unsignedByte': '1', 'gDay': '---01'}
+EVALUES = ['9' * 400, '-' + '9' * 400, '99999999999999999999', '1e9999', '-1E-9999', 'INF', 'NaN', '99999999999999999999-01-01', '-99999999999999999999', '2000-01-01T00:00:00+99:99',
+           'P99999999999999999999Y', 'PT1e5S', '1.' + '0' * 400 + '1', '0x10', '٣', '', ' ', 'xs:', ':a', '%zz', '---99', '25:00:00', '2000-13-45']
+_E = {}
+
+
+def eval_extreme(args):
+    ver, t, v, role = args
+    import xmlschema
+    if ver == '1.0' and t == 'yearMonthDuration': return None
+    key = (ver, t, role)
+    if key not in _E:
+        lit = ETYPES[t]; base = f'xs:{t}'
+        if role == 'key': body = f'<xs:element name="y" type="{base}" maxOccurs="unbounded"/>'; ident = '<xs:key name="K"><xs:selector xpath="y"/><xs:field xpath="."/></xs:key>'
+        elif role == 'attr-key': body = f'<xs:element name="y" maxOccurs="unbounded"><xs:complexType><xs:attribute name="v" type="{base}"/></xs:complexType></xs:element>'; ident = '<xs:unique name="K"><xs:selector xpath="y"/><xs:field xpath="@v"/></xs:unique>'
+        elif role == 'enum': body = f'<xs:element name="y" maxOccurs="unbounded"><xs:simpleType><xs:restriction base="{base}"><xs:enumeration value="{lit}"/></xs:restriction></xs:simpleType></xs:element>'; ident = ''
+        else:
+            facet = 'maxLength' if t in ('hexBinary', 'anyURI', 'QName') else ('pattern' if t == 'boolean' else 'maxInclusive')
+            body = f'<xs:element name="y" maxOccurs="unbounded"><xs:simpleType><xs:restriction base="{base}"><xs:{facet} value="{"5" if facet == "maxLength" else (".*" if facet == "pattern" else lit)}"/></xs:restriction></xs:simpleType></xs:element>'; ident = ''
+        try: _E[key] = _cls(ver)(f'<xs:schema xmlns:xs="http://www.w3.org/2001/XMLSchema"><xs:element name="r"><xs:complexType><xs:sequence>{body}</xs:sequence></xs:complexType>{ident}</xs:element></xs:schema>')
+        except xmlschema.XMLSchemaException as e: _E[key] = None
+    s = _E[key]
+    if s is None: return None
+    from xml.sax.saxutils import escape, quoteattr
+    lit = ETYPES[t]
+    doc = '<r xmlns:xs="http://www.w3.org/2001/XMLSchema">' + ''.join(f'<y v={quoteattr(x)}/>' if role == 'attr-key' else f'<y>{escape(x)}</y>' for x in (v, lit, v)) + '</r>'
+    bad = []
+    for name, f in (('iter_errors', lambda: list(s.iter_errors(doc))), ('decode_lax', lambda: s.decode(doc, validation='lax')), ('lazy', lambda: list(s.iter_errors(xmlschema.XMLResource(doc, lazy=True))))):
+        try: f()
+        except xmlschema.XMLSchemaException as e: bad.append((name, 'lax raised ' + type(e).__name__))
+        except Exception as e: bad.append((name, f'{type(e).__name__}: {str(e)[:80]}'))
+    return dict(ver=ver, type=t, value=v, role=role, bad=bad) if bad else None
+
+
 def run(tier, seed, open_findings):
     rng = random.Random(seed); n = 1200 if tier == 'thorough' else 300
     docs = []
@@ -117,6 +152,12 @@ def run(tier, seed, open_findings):
     lf = [dict(case=dict(lazy=r['lazy'], max_depth=r['max_depth'], max_elements=r['max_elements'], depth=r['depth'], elements=r['elements']), observed=r['got'], required=r['want']) for r in lres if r]
     out.append(result('C11.limit_sweep', f'{len(ljobs)} (lazy, limit setting, size) points at limit-1, limit, limit+1 for depth and element count', len(ljobs), lf, exhaustive=True,
                       samples=[dict(lazy=False, max_depth=5, depth=5)]))
+    # extreme lexical values where a typed value is computed outside the datatype decoder: identity fields (XPath typed value) and facets
+    ejobs = [(ver, t, v, role) for ver in ('1.0', '1.1') for t in ETYPES for v in EVALUES for role in ('key', 'enum', 'range', 'attr-key')]
+    eres = pmap(eval_extreme, ejobs)
+    out.append(result('C11.extreme_values_in_fields_and_facets', f'{len(ETYPES)} builtin types x {len(EVALUES)} extreme values x (key field, attribute key field, enumeration, range facet) x 2 classes x 3 entry points',
+                      len(ejobs) * 3, [dict(case=dict(extreme=True, ver=r['ver'], type=r['type'], value=r['value'], role=r['role']), observed=r['bad'], required='a verdict or a library exception')
+                                       for r in eres if r], exhaustive=True, samples=[dict(type='gYear', value='99999999999999999999', role='key')]))
     # deep nesting well within MAX_XML_DEPTH: validation must not end in RecursionError
     deep = []; known = {}
     for ver in ('1.0', '1.1'):
@@ -136,6 +177,9 @@ def run(tier, seed, open_findings):
 
 
 def replay(check_name, case):
+    if case.get('extreme'):
+        r = eval_extreme((case['ver'], case['type'], case['value'], case['role']))
+        return dict(ok=r is None, observed=r, required='a verdict or a library exception')
     if check_name == 'C11.limit_sweep':
         r = eval_limits((case['lazy'], case['max_depth'], case['max_elements'], case['depth'] if case['elements'] == case['depth'] else 1, case['elements']))
         return dict(ok=r is None, observed=r, required='refused exactly when a limit is exceeded')
